@@ -217,6 +217,11 @@ def affinity_eval(case):
             res["calls"].append(ms)
             if res.get("runaway"):
                 break
+        # the positivized view (marks of the matches removed) must show the matrix as it was before the searches
+        res["positivized_equals_start"] = bool(np.array_equal(
+            np.where(np.isneginf(np.asarray(lc.wp_slice(positivize=True), dtype=float)), -np.inf,
+                     np.asarray(lc.wp_slice(positivize=True), dtype=float)),
+            np.asarray(start, dtype=float), equal_nan=True))
         return res
     for engine in ("py", "c_full", "c_compact"):
         guard("lc_" + engine, lambda e=engine: matches(e))
